@@ -22,7 +22,7 @@ func hop(h int) []byte { return []byte{0, 0, 0, byte(h)} }
 func kind(id int, name string, mk func() mangos.ProtocolBase) *l1kit.Kind {
 	isStar := id >= 3
 	raw := id == 2 || id == 4
-	k := &l1kit.Kind{ID: id, Name: name, New: mk}
+	k := &l1kit.Kind{ID: id, Name: name, New: mk, KeepRecv: true}
 	k.MkSend = func(g *l1kit.G, o Op, t, n int) ([]byte, []byte) {
 		r := g.R
 		body := g.Tag(t, n)
@@ -117,6 +117,9 @@ func kind(id int, name string, mk func() mangos.ProtocolBase) *l1kit.Kind {
 			}
 			return Op{K: "drop", A: g.Pick(ps)}, true
 		case w < 40:
+			if g.HasLast() && r.Intn(3) == 0 {
+				return Op{K: "send", S: 3}, true // the application refills and re-sends the object its latest Recv returned
+			}
 			if raw && g.Held != nil {
 				return Op{K: "send", S: 2}, true // the message of which the application kept a reference, once more
 			}
